@@ -55,7 +55,15 @@ def run(ctx):
              'every comparison of two digit sequences runs over the reversed sequences', floor=4)
     ctx.rule('C12.3-bigint-signs', 'compare_bigint decides mixed signs by the sign alone (positive > negative), compares two positives by magnitude (length, then digits) in the '
              'direct orientation and two negatives with EVERY magnitude comparison in the opposite orientation (operands swapped or the result reversed)', floor=8)
-    for mod in ('term', 'borrowed'):
+    mods_ = [m_ for m_ in ('term', 'borrowed') if P.B('erltf::%s::compare_bigint' % m_) is not None]
+    if 'borrowed' not in mods_ and 'term' in mods_ and CMP_B in ctx.F.bodies and 'erltf::term::compare_bigint' in P.reachable_from([CMP_B]):
+        # the zero-copy comparator uses the owned type's helper directly: one copy to check instead of two
+        ctx.rule('C12.3-bigint-digits', '', floor=2)
+        ctx.rule('C12.3-bigint-signs', '', floor=4)
+        ctx.ok('C12.3-bigint-signs', 'borrowed::compare_bigint', 'BorrowedTerm::cmp calls erltf::term::compare_bigint (shared helper)')
+    else:
+        mods_ = ['term', 'borrowed']
+    for mod in mods_:
         fn = 'erltf::%s::compare_bigint' % mod
         FB = P.B(fn)
         if not ctx.anchor(FB is not None, fn):
@@ -224,6 +232,14 @@ def run(ctx):
                     CB = P.B(cdef)
                     if CB is not None:
                         bodies.append((CB, set(CB.live_blocks())))
+                # helpers of the crate called from the arm (compare_term_lists ...) are part of the recipe: look inside them too
+                for bb_ in sorted(region):
+                    t_ = B.blocks[bb_]['t']
+                    if t_['k'] == 'call':
+                        for n_ in callee_names(t_):
+                            if n_.startswith('erltf::') and n_.rsplit('::', 1)[-1].startswith('compare_') and P.B(n_) is not None and n_ not in (CMP_O, CMP_B):
+                                for HB_ in bodies_of_fn(P, n_):
+                                    bodies.append((HB_, set(HB_.live_blocks())))
                 elem_at, len_at = [], []
                 for k_, (XB, reg) in enumerate(bodies):
                     for bb_ in sorted(reg):
@@ -285,7 +301,7 @@ def run(ctx):
 
     # element-wise comparison of two sequences stops at the shorter one: the lengths have to be compared as well
     ctx.rule('C12.5-zip-needs-length', 'every helper on the comparison path that walks two slices in step (zip) also compares their lengths (before the walk or as the tie-break after it): '
-             'without it a sequence and its proper prefix compare Equal - two funs whose environments are [1] and [1,2] become the same map key', floor=2)
+             'without it a sequence and its proper prefix compare Equal - two funs whose environments are [1] and [1,2] become the same map key', floor=1)
     from ..families import bodies_of_fn as _bf12, comparator_calls as _cmpc
     seen_z = set()
     for root in (CMP_O, CMP_B):
